@@ -382,6 +382,48 @@ def r5(ctx):
         ctx.bad(raw.qualname.split(':')[1], 'composite-shape', 'composite lines are not handled as metadata-only', raw.loc())
 
 
+ANGLE_PROBES = [
+    ('5', "astropy.units.Quantity(float('5'), ['unit', pi*ANG/180])", 'bare number: degrees'),
+    ('5.', "astropy.units.Quantity(float('5.'), ['unit', pi*ANG/180])", 'a trailing decimal point is still a bare number'),
+    ('.5', "astropy.units.Quantity(float('.5'), ['unit', pi*ANG/180])", 'bare number'),
+    ('1e-5', "astropy.units.Quantity(float('1e-5'), ['unit', pi*ANG/180])", 'exponent notation (what the writer emits below 1e-4)'),
+    ('+5.25', "astropy.units.Quantity(float('+5.25'), ['unit', pi*ANG/180])", 'signed'),
+    ('5"', "astropy.units.Quantity(float('5'), ['unit', pi*ANG/648000])", '" is arcsec'),
+    ("5.5'", "astropy.units.Quantity(float('5.5'), ['unit', pi*ANG/10800])", "' is arcmin"),
+    ('5d', "astropy.units.Quantity(float('5'), ['unit', pi*ANG/180])", 'd is degrees'),
+    ('1.5r', "astropy.units.Quantity(float('1.5'), ['unit', ANG])", 'r is radians'),
+    ('5p', 'raises DS9ParserError', 'physical units are not angular'),
+    ('5i', 'raises DS9ParserError', 'image units are not angular'),
+]
+
+
+def r3b(ctx):
+    """the angle/size lexer on one probe token per branch (and per way a number can end)."""
+    m = ctx.model
+    par, make, lexers, raw, mod = ds9.reader_funcs(m)
+    f = lexers['_parse_angle']
+    bad = []
+    for tok, want, why in ANGLE_PROBES:
+        ev = Evaluator(m)
+        out = ev.run(f, [Const(tok)], {})
+        if out.raises and not out.returns:
+            got = 'raises ' + str(out.raises[0][1])
+        elif len(out.returns) == 1 and not out.raises:
+            got = show(out.returns[0][1], 200)
+        else:
+            got = f'{len(out.returns)} outcomes, {len(out.raises)} raises: ' + '; '.join(show(v, 60) for _, v in out.returns[:3])
+        if got != want:
+            bad.append((tok, got, want, why))
+    name = f.qualname.split(':')[1]
+    if bad:
+        tok, got, want, why = bad[0]
+        ctx.bad(name, 'angle-probes', f'token {tok!r} is lexed as {got}; DS9 ({why}) requires {want} '
+                f'({len(bad)} of {len(ANGLE_PROBES)} probe tokens differ)', f.loc())
+    else:
+        ctx.ok(name + ':probes', f'{len(ANGLE_PROBES)} probe tokens (suffixes, bare numbers ending in a digit or a point, '
+               'exponent form, non-angular units)')
+
+
 DELIMS = (('{', '}'), ('"', '"'), ("'", "'"))
 
 
@@ -415,6 +457,45 @@ def r6(ctx):
                     f'({len(bad)} of the probes for this delimiter pair differ)', lex.loc())
         else:
             ctx.ok(construct, f'{len(foreign) * 4} probes (foreign delimiter characters at start, middle, end, padded) verbatim')
+    # the line splitter protects ';' inside free text: its pattern must know every free-text key the metadata lexer
+    # treats as such (text, tag), in any letter case (keys are lower-cased by the lexer)
+    par, make, lexers, raw, rmod = ds9.reader_funcs(m)
+    prot = None
+    for fi in rmod.functions.values():
+        for c in calls_in(fi.node):
+            if (call_name(c) or '') in ('re.compile', 'compile') and c.args and isinstance(c.args[0], ast.Constant) \
+                    and isinstance(c.args[0].value, str) and 'text' in c.args[0].value and fi is not lex:
+                flags = 0
+                for a in list(c.args[1:]) + [k.value for k in c.keywords]:
+                    import re as _re
+                    for part in ast.unparse(a).split('|'):
+                        flags |= getattr(_re, part.strip().split('.')[-1], 0)
+                prot = (fi, c.args[0].value, flags)
+    ctx.need(prot is not None, 'ds9 read', 'text-delimiter pattern of the line splitter not found')
+    import re as _re
+    rx = _re.compile(prot[1], prot[2])
+    text_keys = None
+    for fi in rmod.functions.values():
+        for st in stmts_of(fi.node):
+            if isinstance(st, ast.Assign) and norm(st.targets[0]) == 'text_keys':
+                try:
+                    text_keys = list(ast.literal_eval(st.value))
+                except Exception:
+                    pass
+    ctx.need(text_keys, 'ds9 read', 'free-text key tuple not found')
+    missing = []
+    for key in text_keys:
+        for spelled in (key, key.upper(), key.capitalize()):
+            for d in '{"\'':
+                if not rx.search(f'circle(1,2,3) # {spelled}={d}a;b'):
+                    missing.append(f'{spelled}={d}')
+    if missing:
+        ctx.bad(prot[0].qualname.split(':')[1], 'semicolon-protection',
+                f'the pattern {prot[1]!r} (flags {prot[2]}) that protects ";" inside free text does not recognise '
+                f'{missing[:4]}{"…" if len(missing) > 4 else ""}: `circle(1,2,3) # {missing[0]}a;b…` is cut at the semicolon',
+                prot[0].loc())
+    else:
+        ctx.ok(prot[0].qualname.split(':')[1], f'";" is protected inside {text_keys} values in any letter case')
     # keys are case-insensitive, values are not
     got = Evaluator(m, hooks=ds9.regex_hooks()).call(lex, [Const('TEXT={Ab Cd} Color=Red')], {})
     if isinstance(got, DictV) and isinstance(got.get('text'), Const) and got.get('text').v == 'Ab Cd' \
@@ -429,7 +510,8 @@ RULES = [
     RuleDef('R1b', 'unsupported frame keywords all clear the active frame (keyword partition)', r1b, 3),
     RuleDef('R2', 'metadata precedence; sign-derived include', r2, 2),
     RuleDef('R3', 'coordinate / size / angle lexing constants', r3, 5),
+    RuleDef('R3b', 'angle/size lexer probes (one per branch and per number ending)', r3b, 1),
     RuleDef('R4', 'parameter templates per shape (symbolic parse), annulus expansion, frame names', r4, 27),
     RuleDef('R5', 'composite metadata state', r5, 2),
-    RuleDef('R6', 'text in {} "" \'\' is kept verbatim (lexer partially evaluated on delimiter probes)', r6, 4),
+    RuleDef('R6', 'text in {} "" \'\' is kept verbatim (lexer partially evaluated on delimiter probes); ";" protected in free text', r6, 5),
 ]
